@@ -240,6 +240,8 @@ def run_deriv(n, m):
 
 
 def run_guards():
+    from .common import defaults_facts
+    defaults_facts(['fornberg.fd_derivative'])
     fb = mods()['fb']
     calls = []
     with _env(fb, calls):
